@@ -147,7 +147,15 @@ pub proof fn lemma_ready_monotone_welford_rolling(o: WelfordRollingOwn, y: T)
 {}
 
 // documented warm-up lengths over Echo, as functions of the number of delivered values (from the history lemmas)
-use crate::props::c02_history::*;
+use crate::props::c00_window::*;
+use crate::props::c02_h_sma::*;
+use crate::props::c05_h_rsi::*;
+use crate::props::c05_h_my_rsi::*;
+use crate::props::c02_h_welford_online::*;
+use crate::props::c02_h_min::*;
+use crate::props::c02_h_max::*;
+use crate::props::c02_h_cumulative::*;
+use crate::props::c06_h_center_of_gravity::*;
 pub proof fn lemma_warmup_sma(h: Seq<T>, n: nat) requires n >= 1
     ensures Sma::<Echo>::out(run::<Sma<Echo>>((None::<T>, SmaOwn { n: n, w: Seq::<T>::empty() }), h)).is_some() == (h.len() >= n)
 { lemma_sma_closed_form(h, n); }
